@@ -29,6 +29,10 @@ type Violation struct {
 	Desc   string      `json:"desc"`
 	Case   interface{} `json:"case,omitempty"`
 	Config string      `json:"config"`
+	// NoReplay marks a violation observed on input the harness does not control (bytes drawn from the operating
+	// system's entropy source by a nil-reader default): it cannot be re-enumerated by index; the description carries the
+	// concrete input so that it can be re-checked by hand, and the driver believes it without a replay.
+	NoReplay bool `json:"noreplay,omitempty"`
 }
 
 // Report is what one harness process hands back to the driver.
@@ -441,6 +445,15 @@ func (w *W) Fail(key, desc string, cas interface{}) {
 	if w.vkeys[key] < 3 && len(w.viol) < 200 {
 		w.vkeys[key]++
 		w.viol = append(w.viol, Violation{Sub: w.sub, Index: w.idx, Key: key, Desc: desc, Case: cas, Config: w.c.Config})
+	}
+}
+
+// FailNoReplay is Fail for a case whose input came from the operating system's entropy source (see Violation.NoReplay).
+func (w *W) FailNoReplay(key, desc string, cas interface{}) {
+	n := len(w.viol)
+	w.Fail(key, desc, cas)
+	if len(w.viol) > n {
+		w.viol[len(w.viol)-1].NoReplay = true
 	}
 }
 
